@@ -97,6 +97,19 @@ pub assume_specification[<Fp as core::ops::Add<Fp>>::add](a: Fp, b: Fp) -> (r: F
     ensures fv(r) == f_add(fv(a), fv(b));
 pub assume_specification[<Fp as core::ops::AddAssign<Fp>>::add_assign](a: &mut Fp, b: Fp)
     ensures fv(*final(a)) == f_add(fv(*old(a)), fv(b));
+/// equality of field elements is equality of the integers they stand for (ct_eq over the canonical encodings)
+pub assume_specification[<Fp as core::cmp::PartialEq<Fp>>::eq](a: &Fp, b: &Fp) -> (r: bool)
+    ensures r == (fv(*a) == fv(*b));
+pub open spec fn f_sub(a: int, b: int) -> int { (a - b) % P() }
+pub assume_specification[<Fp as core::ops::Sub<Fp>>::sub](a: Fp, b: Fp) -> (r: Fp)
+    ensures fv(r) == f_sub(fv(a), fv(b));
+pub broadcast axiom fn ax_req_fp_sub(a: Fp, b: Fp) ensures #[trigger] <Fp as vstd::std_specs::ops::SubSpec<Fp>>::sub_req(a, b);
+/// multiplicative inverse (T-field, ASSUMED: Fermat exponentiation inside ff_derive): defined exactly for non-zero
+/// elements, and then inv * a == 1; the flag half (Some iff non-zero) is discharged by the Kani harness of C07
+pub assume_specification[<Fp as Field>::invert](a: &Fp) -> (r: CtOption<Fp>)
+    ensures
+        ct_opt(r).is_some() <==> fv(*a) != 0,
+        ct_opt(r).is_some() ==> f_mul(fv(ct_opt(r).unwrap()), fv(*a)) == 1;
 pub broadcast axiom fn ax_req_fp_mul(a: Fp, b: Fp) ensures #[trigger] <Fp as vstd::std_specs::ops::MulSpec<Fp>>::mul_req(a, b);
 pub broadcast axiom fn ax_req_fp_add_ref<'b>(a: Fp, b: &'b Fp) ensures #[trigger] <Fp as vstd::std_specs::ops::AddSpec<&'b Fp>>::add_req(a, b);
 pub broadcast axiom fn ax_req_fp_add(a: Fp, b: Fp) ensures #[trigger] <Fp as vstd::std_specs::ops::AddSpec<Fp>>::add_req(a, b);
@@ -111,6 +124,6 @@ pub fn v_fp_one() -> (r: Fp) ensures fv(r) == 1 { Fp::ONE }
 pub axiom fn ax_fp_vec_len_bound(v: &Vec<Fp>)
     ensures v@.len() * 24 <= isize::MAX;
 
-pub broadcast group group_field { ax_fv_range, ax_fp_random_mutref, ax_req_fp_mul, ax_req_fp_add_ref, ax_req_fp_add }
+pub broadcast group group_field { ax_fv_range, ax_fp_random_mutref, ax_req_fp_mul, ax_req_fp_add_ref, ax_req_fp_add, ax_req_fp_sub }
 
 } // mod th_field
